@@ -117,8 +117,9 @@ pub fn profile(prop: Prop, thorough: bool) -> Profile {
             p.maps = 2;
         }
         Prop::C02 | Prop::C03 => {
-            p.weights = cat(&[MAP_BASIC, HANDLES, MOVERS]);
-            p.elem = [8, 2, 0];
+            p.weights = cat(&[MAP_BASIC, HANDLES, MOVERS, &scale(SET_BASIC, 1, 4)]);
+            p.sets = 1;
+            p.elem = [8, 2, 1];
             p.hashers = [8, 1, 0, 1, 2];
             p.max_len = if thorough { 200 } else { 100 };
         }
@@ -133,6 +134,8 @@ pub fn profile(prop: Prop, thorough: bool) -> Profile {
             p.sets = 2;
             p.elem = [2, 7, 1];
             p.forget = true;
+            // C05 is about every sequence of safe calls: sizes near usize::MAX included
+            p.huge_args = prop == Prop::C05;
         }
         Prop::C07 => {
             p.weights = cat(&[MAP_BASIC, &scale(HANDLES, 2, 1), &scale(MOVERS, 2, 1), &scale(SET_BASIC, 1, 3), &[(G::CloneTo, 3), (G::CloneFrom, 4), (G::SCloneFrom, 1)]]);
@@ -153,6 +156,7 @@ pub fn profile(prop: Prop, thorough: bool) -> Profile {
             p.weights = cat(&[&scale(MAP_BASIC, 1, 2), &scale(HANDLES, 1, 4), &[(G::Retain, 25), (G::DrainFilter, 30), (G::Reserve, 3), (G::ShrinkTo, 2), (G::ShrinkToFit, 2), (G::SRetain, 8), (G::SDrainFilter, 10), (G::SInsert, 20), (G::SRemove, 5)]]);
             p.sets = 1;
             p.forget = true;
+            p.drop_panics = true;
         }
         Prop::C10 => {
             p.weights = cat(&[MAP_BASIC, &scale(HANDLES, 1, 2), &[(G::Retain, 4), (G::DrainFilter, 2), (G::Reserve, 6), (G::TryReserve, 3), (G::ShrinkTo, 6), (G::ShrinkToFit, 4)]]);
